@@ -350,6 +350,8 @@ def run(ctx):
                  "the id sent back to the client is not the id enqueue_task returned", loc(br, hc.module))
 
     # ---------------- R5 EOF terminates the handler
+    r6 = ctx.rule("R6", "one client cannot stall the others: nothing shared between connections is held across a client-paced await")
+    rule_no_shared_lock_across_client_io(ctx, r6)
     r5 = ctx.rule("R5", "a dropped connection (EOF) ends its handler instead of spinning the event loop")
     loop = None
     data_var = None
@@ -379,3 +381,51 @@ def run(ctx):
         else:
             kinds = sorted({o.kind + (":" + str(o.payload) if o.kind == RAISE else "") for o in outs})
             r5.ok(hcon + "::eof", f"on EOF the iteration ends the handler ({', '.join(kinds)})", loc(loop, hc.module))
+
+
+CLIENT_PACED = {"drain", "readline", "read", "readexactly", "readuntil", "wait_closed"}
+
+
+def rule_no_shared_lock_across_client_io(ctx, r):
+    """No synchronisation object shared between connections (a field of the Server or the Scheduler) is held while awaiting an operation whose
+    completion one client controls (writer.drain, reader.read*, wait_closed): that client could stall every other connection."""
+    idx = ctx.index
+    n_regions = 0
+    bad = []
+    for cname in ("Server", "Scheduler"):
+        ci = idx.cls(f"{LOCAL}:{cname}")
+        for m in ci.methods.values():
+            for node in walk_no_nested(m.node):
+                held = None
+                body = None
+                if isinstance(node, (ast.AsyncWith, ast.With)):
+                    for it in node.items:
+                        e = it.context_expr
+                        if isinstance(e, ast.Await):
+                            e = e.value
+                        if isinstance(e, ast.Call) and isinstance(e.func, ast.Attribute) and e.func.attr == "acquire":
+                            e = e.func.value
+                        d = dotted(e) or ""
+                        if d.startswith("self."):
+                            held, body = d, node.body
+                if held is None:
+                    continue
+                n_regions += 1
+                paced = []
+                for st in body:
+                    for c in _calls(st):
+                        if isinstance(c.func, ast.Attribute) and c.func.attr in CLIENT_PACED and isinstance(getattr(c, "_parent", None), ast.Await):
+                            paced.append(c)
+                        # one level into same-class helpers
+                        if isinstance(c.func, ast.Attribute) and dotted(c.func.value) == "self":
+                            callee = idx.method(ci, c.func.attr)
+                            if callee is not None:
+                                paced.extend(cc for cc in _calls(callee.node) if isinstance(cc.func, ast.Attribute) and cc.func.attr in CLIENT_PACED)
+                if paced:
+                    bad.append((m, held, paced[0]))
+    for m, held, c in bad:
+        r.violation(f"{m.module.relpath}::{m.qual}::{held}", f"`{held}`, shared by all connections, is held while awaiting `{ast.unparse(c)[:40]}`, which completes only when that one "
+                    "client reads/sends: a client that stops reading blocks the answers to every other client", loc(c, m.module))
+    if not bad:
+        r.ok(f"src/gwf/backends/local.py::Server", f"{n_regions} region(s) holding a shared synchronisation object; none spans a client-paced await (drain/read/wait_closed)",
+             idx.cls(f"{LOCAL}:Server").where)
